@@ -152,7 +152,8 @@ def pipeline(payload):
 
     def recording_mrg(input_dataframe, args, cpu_pool, pbar):
         seen["names"] = [str(c) for c in input_dataframe.columns]
-        seen["cols"] = [[v for v in input_dataframe[c].tolist()] for c in input_dataframe.columns]
+        seen["cols"] = [[(v if isinstance(v, str) else repr(v)) for v in input_dataframe[c].tolist()]
+                        for c in input_dataframe.columns]
         return real_mrg(input_dataframe, args, cpu_pool, pbar)
 
     # harness-side observers (the real functions run unchanged): the combinations selected for scoring, and -- opt-in,
@@ -183,7 +184,18 @@ def pipeline(payload):
         cr.GLOBAL_RARE_VALUE_STORAGE = Counter()
         cr.GLOBAL_PRIOR_COMB_COUNTS = Counter()
         cr.IGNORED_VALUES = set()
+        if hasattr(cr, "GLOBAL_PRIOR_FEATURE_COMB_COUNTS"):
+            cr.GLOBAL_PRIOR_FEATURE_COMB_COUNTS = type(cr.GLOBAL_PRIOR_FEATURE_COMB_COUNTS)()
         a = dict(defaults)
+        ref_path = ""
+        if case.get("reference_features"):
+            # a small reference-model JSON, written into the runner's scratch directory (cwd = /verif/.cache)
+            ref_dir = os.path.join(os.getcwd(), "c05_ref_%d" % os.getpid())
+            os.makedirs(ref_dir, exist_ok=True)
+            ref_path = os.path.join(ref_dir, "reference_model_%d.json" % idx)
+            with open(ref_path, "w", encoding="utf8") as fh:
+                json.dump({"desc": {"features": list(case["reference_features"])}}, fh)
+            a["reference_model_JSON"] = ref_path
         spec = case.get("pool") or {}
         a.update(task="ranking", data_source="csv-raw", data_path="unused", subsampling=1,
                  num_threads=int(spec.get("nodes", spec.get("ncpus", 1))),
@@ -205,7 +217,8 @@ def pipeline(payload):
             if case.get("entry", "mrg") == "cbr":
                 cr.mixed_rank_graph = recording_mrg
                 try:
-                    res = cr.compute_batch_ranking(rows, set(), args, pool, list(names), Quiet(), Quiet())[0]
+                    res = cr.compute_batch_ranking(rows, set(case.get("numeric") or []), args, pool, list(names),
+                                                   Quiet(), Quiet())[0]
                 finally:
                     cr.mixed_rank_graph = real_mrg
                 frame = {"names": seen.get("names"), "cols": seen.get("cols")}
@@ -223,6 +236,12 @@ def pipeline(payload):
             cr.prior_combinations_sample = real_pcs
             cr.get_importances_estimate_pairwise = real_giep
             release()
+            if ref_path:
+                try:
+                    os.remove(ref_path)
+                    os.rmdir(os.path.dirname(ref_path))
+                except OSError:
+                    pass
         sys.stdout.write("@@CASE %d %s\n" % (idx, json.dumps(out)))
         sys.stdout.flush()
     print("@@RESULT " + json.dumps({"done": len(payload["cases"])}))
